@@ -136,7 +136,7 @@ def iter {α : Type} (f : α → α) : Nat → α → α
   | 0, a => a
   | n + 1, a => iter f n (f a)
 
-def analyze (t : Table) : List (Ab × Ab) := iter (flowRound t) 12 (flowInit t)
+def analyze (t : Table) : List (Ab × Ab) := iter (flowRound t) 1 (flowInit t)
 
 def flagMap (t : Table) : FlagMap := fun i => (analyze t)[i]?.getD (Ab.none, Ab.none)
 
